@@ -499,10 +499,18 @@ func (ex *Exec) merge(states []*State) (*State, error) {
 			}
 		}
 		for k, v := range s.ghost {
-			if rv, ok := res.ghost[k]; ok && rv != v {
-				res.ghost[k] = ex.p.Ite(c, v, rv)
-			} else if !ok {
-				res.ghost[k] = v
+			if rv, ok := res.ghost[k]; ok {
+				if rv != v {
+					res.ghost[k] = ex.p.Ite(c, v, rv)
+				}
+			} else {
+				// untouched on the other side: still at its initial value
+				res.ghost[k] = ex.p.Ite(c, v, ex.p.Const("ghost:"+k+"@0", v.Sort))
+			}
+		}
+		for k, rv := range res.ghost {
+			if _, ok := s.ghost[k]; !ok {
+				res.ghost[k] = ex.p.Ite(c, ex.p.Const("ghost:"+k+"@0", rv.Sort), rv)
 			}
 		}
 		if s.heapTop != res.heapTop {
